@@ -24,10 +24,8 @@ def skip_known_c15(cop, eff, g):
     if kind in ('dep_lshift', 'dep_rshift') and eff.cls != interp.LEGAL and is_open('F21'):
         if len(g.preds[cop[1]] if cop[2] == 'preds' else g.succs[cop[1]]) >= 2:
             return 'F21'
-    if kind == 'new_task' and eff.cls != interp.LEGAL and is_open('F32'):
-        given = [x for x in cop[2:6] if x is not None and x != () and x != []]
-        if len(given) >= 2:
-            return 'F32'
+    if kind == 'append' and cop[2] in ('F:tasks', 'F:kids') and is_open('F21'):
+        return 'F21'        # children.append(<task list>) is the bulk form "list.parent = owner"
     return None
 
 
